@@ -7,6 +7,7 @@ import ChessVerif.Lemmas.Attack
 import ChessVerif.Lemmas.Refine
 import ChessVerif.Lemmas.Material
 import ChessVerif.Lemmas.WfHyp
+import ChessVerif.Lemmas.EpExact
 namespace Chess.Props
 
 theorem contains_iff_count (k : Nat) (l : List Nat) : l.contains k = decide (1 ≤ countEq k l) := by
@@ -64,6 +65,33 @@ theorem C07_mate_stalemate (p : Position) :
   refine ⟨rfl, rfl, ?_⟩
   unfold isCheckmate isStalemate
   cases (genMoves p).isEmpty <;> cases isInCheck p p.side <;> simp
+
+/-- **C07 (mate/stalemate, exact)**: on every well-formed position the engine's checkmate and stalemate answers are the rules': no
+    legal move, with/without check.  From the exactness of the generator (`exact_all`, C01) and the check test (C07_check). -/
+theorem C07_mate_stalemate_exact (p : Position) (hwf : Spec.wf (Chess.absPos p) = true) :
+    isCheckmate p = Spec.isMate (Chess.absPos p) ∧ isStalemate p = Spec.isStalemate (Chess.absPos p) := by
+  obtain ⟨hbo, hside, hkk, _, _⟩ := wf_board_hyps _ hwf
+  obtain ⟨k, hk, hnear⟩ := hkk p.side hside
+  have hchk : isInCheck p p.side = Spec.inCheck p.board p.side := isInCheck_eq p p.side k hside hbo hk hnear
+  have hempty : (genMoves p).isEmpty = (Spec.legalMoves (Chess.absPos p)).isEmpty := by
+    cases hg : genMoves p with
+    | nil =>
+      cases hl : Spec.legalMoves (Chess.absPos p) with
+      | nil => rfl
+      | cons m ms =>
+        exfalso
+        have := (exact_all p hwf (codeOf (Chess.absPos p) m)).2 ⟨m, by rw [hl]; exact List.mem_cons_self, rfl⟩
+        rw [hg] at this; cases this
+    | cons c cs =>
+      cases hl : Spec.legalMoves (Chess.absPos p) with
+      | nil =>
+        exfalso
+        obtain ⟨m, hm, _⟩ := (exact_all p hwf c).1 (by rw [hg]; exact List.mem_cons_self)
+        rw [hl] at hm; cases hm
+      | cons m ms => rfl
+  unfold isCheckmate isStalemate Spec.isMate Spec.isStalemate
+  rw [hempty, hchk]
+  exact ⟨rfl, rfl⟩
 
 /-- C07 (check): on every board with piece codes 0..12, exactly one king of the side in question, and no enemy king on
     a neighbouring square, the engine's bitboard test `is_in_check` (pawn and knight masks, magic-table slider lookups)
